@@ -147,6 +147,8 @@ pub enum PStep {
     WeakSelf,
     /// the synchronous `Service::try_from_registry()` of service type k, called from inside a handler
     TryFromRegistry(u8),
+    /// the handler hands `ctx.weak_sender()` out (the handle an actor gives to helpers to report back with)
+    ExportWeakSender,
 }
 
 #[derive(Clone, Copy, Debug, PartialEq, Eq, Hash)]
@@ -198,6 +200,9 @@ pub enum Op {
     /// `from_registry()` of service type k is polled `polls` times and then dropped (a lookup under a timeout /
     /// `select!` that gave up); always pushes one slot (the address if the lookup completed in time)
     FromRegistryCancel { k: u8, polls: u8 },
+    /// take the weak sender that the actor behind `slot` exported from its context (`ExportWeakSender`); always
+    /// pushes one slot
+    ImportWeakSender { slot: u16 },
     /// the handle in `slot` is dropped while the client's thread is unwinding from a panic (which the client catches)
     DropPanicking { slot: u16 },
     /// `owning.consume()` creates a lazy future that owns the OwningAddr; it is kept un-polled in a new slot
